@@ -271,6 +271,43 @@ CHECKS["C16"] = dict(
          "record type. A commit-only HardState is not fsynced by design (raft.MustSync); the oracle uses the code's own sync points.",
 )
 
+CHECKS["C07"] = dict(
+    category="proof", design_ref="DESIGN.md §6 C07", engine="apply + cluster",
+    technique="Lean 4 theorems on the apply pipeline (exactly-once, in-order delivery for every overlap of Ready batches) and on the abstract protocol "
+              "(commit order respects real time) + differential correspondence of the real entriesToApply/publishEntries + END-TO-END EXPLORATION on real node "
+              "processes (concurrent clients, SIGKILL/restart/membership faults, porcupine, per-node agreement)",
+    text="PROVED (kernel-checked): Apply.apply_exactly_once / publish_spec - whatever the overlap of the Ready batches, each committed entry reaches the state "
+         "machine exactly once, in index order; RS.commit_order_respects_real_time - a proposal made after an index was committed is committed strictly behind it, "
+         "for every cluster size and schedule of the abstract protocol. TIED to the code by running random overlapping batches (incl. gaps, which must be refused) "
+         "through the real entriesToApply/publishEntries against Apply.publish, and by extracting the order of the Ready arm (fact F4). "
+         "NOT PROVED - EXPLORATION: the end-to-end statement (linearizable histories, each client its own reply, identical keyspaces on all nodes, no node death) is "
+         "checked only on the runs explored: 3 and 5 real node processes on loopback, 4-16 concurrent RESP clients against random nodes, SIGKILL of followers / the "
+         "leader / a minority / all nodes at random instants and restart from disk, snapshot-threshold crossings, a follower caught up by MsgSnap, rconf add/delete; "
+         "per-key linearizability by porcupine (commands with broken connections = unknown outcome), a read of every key through every node at quiescence, process liveness.",
+    note="Level: proof for the apply pipeline and the real-time order of the abstract protocol; exploration / fault enumeration on real processes for everything "
+         "end to end (no proof that etcd raft + rafthttp + goroutines implement the abstract protocol; C15 ties raft.RawNode by lock-step). Workload restricted to "
+         "log-deterministic commands: relative TTLs, SPOP/SRANDMEMBER and XADD * diverge between replicas (known findings C07, each with a minimal scenario run on "
+         "every check). No network partitions or disk faults; SIGKILL keeps the page cache. Trusted: Lean kernel (propext, Classical.choice, Quot.sound), harness, "
+         "porcupine, the sequential model in harness/conc.go.",
+)
+
+CHECKS["C08"] = dict(
+    category="proof", design_ref="DESIGN.md §6 C08", engine="cluster",
+    technique="Lean 4 theorems on the recovery function (snapshot + entries up to the persisted commit index = the committed prefix, preserved by append / commit / "
+              "snapshot / compaction) + source fact F4 (persist before send/apply/acknowledge) + FAULT ENUMERATION on real node processes crossing the snapshot threshold",
+    text="PROVED (kernel-checked, abstract in the state machine): Recover.recover_replays_all, rep_save, rep_snapshot, applied_is_image, acked_survives - what a node "
+         "rebuilds from its newest snapshot and the WAL entries after it is the state after its committed prefix, under every storage operation of the Ready loop, so an "
+         "entry at or below the persisted commit index contributes to the recovered state exactly as when it was applied. HYPOTHESES checked on every run: F4 (order of "
+         "the Ready arm extracted from raftexample/raft.go: saveSnap -> wal.Save -> ... -> transport.Send -> publishEntries -> Advance, write errors fatal); "
+         "restore . serialize = id for the keyspace snapshot is property-tested in the repository, not proved. "
+         "NOT PROVED - FAULT ENUMERATION: 'reads on every node reflect every acknowledged write after any crash/restart combination' is checked only on the runs "
+         "explored: workloads of several hundred writes with VERIF_SNAPCOUNT=5/20/50, SIGKILL of any subset including all nodes at random instants, restart in random order, "
+         "then every key read through every node (linearizability incl. those reads, per-node agreement, ledger of acknowledged INCR/SADD), process liveness at snapshot points.",
+    note="Level: proof for the recovery function conditional on F4, C16 (WAL read-back) and snapshot serialisation; fault enumeration on real processes for the end-to-end "
+         "statement. SIGKILL does not drop the page cache: fsync placement / power loss are not exercised. Known finding C08: an added member's URL is lost after compaction "
+         "+ restart (that member never serves again). Trusted: Lean kernel, harness (process control by PID, RESP client), porcupine.",
+)
+
 NOT_YET = "check not built yet in this round; see DESIGN.md §8"
 NOT_APPLICABLE = {}
 
